@@ -619,6 +619,31 @@ def run(F, rep):
     # ------------------------------------------------------------------ F: failing results are explained
     import faillog
     faillog.run_c15(F, rep)
+    # G1: the analysis itself is skipped only because an issue says why
+    rep.rule('C15.G1', 'Analyser::analyseModel(model) either runs the internal analysis (which re-creates the AnalyserModel, so type() speaks about THIS model) or has added an issue: every test that guards the call of '
+                       'AnalyserImpl::analyseModel is a test of the analyser\'s own issue counters, and every return in front of it follows an addIssue. A further "nothing to analyse" condition leaves the previous call\'s '
+                       'AnalyserModel - possibly of a failing type - in place with an empty issue list')
+    pam = F.fn1('libcellml::Analyser::analyseModel')
+    inner = [c for c in pam.walk() if c.get('k') == 'Call' and c.get('fn') == 'analyseModel' and c.get('cls', '').endswith('AnalyserImpl')]
+    if len(inner) != 1:
+        raise AnalysisBroken('Analyser::analyseModel: call of AnalyserImpl::analyseModel not found (%d)' % len(inner))
+    from engines import _decompose as _dc15
+    atoms = []
+    for cnd, br, st in enclosing_conditions(pam, inner[0]):
+        tmp = []
+        _dc15(cnd, br == 'then', tmp)
+        atoms += [(c_, t_) for c_, t_ in tmp if not (c_.get('k') == 'Bin' and c_.get('op') in ('&&', '||'))]
+    if not atoms:
+        raise AnalysisBroken('Analyser::analyseModel: the internal analysis is no longer gated on the issue count')
+    for c_, t_ in atoms:
+        txt = render_x(pam, c_)
+        own = any(x.get('k') == 'Call' and x.get('fn') in ('issueCount', 'errorCount') and (not x.get('c') or x['c'][0].get('k') in ('This', 'NoObj') or render(x['c'][0]) in ('this', 'pFunc()')) for x in walk(c_))
+        rep.check(own, 'C15.G1', 'analyseModel|gate %s' % txt[:50], pam.where(c_), 'the internal analysis also depends on `%s`, which no issue explains: when it fails the AnalyserModel of the previous call stays in place' % txt[:60], 'own issue counter')
+    for r in pam.walk():
+        if r.get('k') == 'Return' and pam.enclosing_lambda(r) is None and r.get('l', 0) < inner[0].get('l', 0):
+            blk = pam.parent(r)
+            logged = blk is not None and any(x.get('k') == 'Call' and x.get('fn') == 'addIssue' for x in walk(blk))
+            rep.check(logged, 'C15.G1', 'analyseModel|return@%d' % sum(1 for x in pam.walk() if x.get('k') == 'Return' and x.get('l', 0) < r.get('l', 0)), pam.where(r), 'Analyser::analyseModel returns before the analysis without having added an issue in that block', 'after addIssue')
 
     # ------------------------------------------------------------------ V: the level of an issue is fixed before it is filed
     rep.rule('C15.V1', 'Issue::IssueImpl::setLevel is called only on an issue that has just been created in the same function and has not been handed to addIssue yet: the logger files an issue under errors/warnings/messages '
